@@ -55,7 +55,7 @@ CONFIG = dict(
     ],
     assumptions=[
         "byte slices handed to Decode have capacity = length (the harness makes exact copies), so an out-of-range slice expression is a panic",
-        "packet body exactly 2^24 bytes is outside Packet.Valid (theorem d13_excluded_point states what the encoder does there)",
+        "packet body exactly 2^24 bytes is outside Packet.Valid (theorems d13_witness and frame_ok_iff_valid state what the old and the repaired encoder do there)",
         "dictionary keys are ASCII without \\v/\\f (on these strings.TrimSpace = trimming space/\\t/\\n/\\r)",
         "inputs handed to Decode are never modified afterwards by the harness (message.Decode documents that Message.Data aliases its input: not flagged)",
         "ClientMsg carries ClientReqId = uint32(ID), Route, Data (type and error flag are dropped by SessionsImpl.ProcessMessage): that is what `delivered` compares",
